@@ -126,6 +126,11 @@ func (repo *Repository) GitCommand(callerArgs ...string) *exec.Cmd {
 		// Disable replace references when running our commands:
 		"--no-replace-objects",
 
+		// ... also when `core.useReplaceRefs=true` is set explicitly
+		// in the configuration, which otherwise overrides
+		// `--no-replace-objects`:
+		"-c", "core.useReplaceRefs=false",
+
 		// Disable the warning that grafts are deprecated, since we
 		// want to set the grafts file to `/dev/null` below (to
 		// disable grafts even where they are supported):
